@@ -9,8 +9,11 @@
 EXTENDS Integers, Sequences, TLC
 
 CONSTANTS MaxConn, MaxSubs,
-          DecideAtStart   \* FALSE: subscribe_op looks at subscriptions_present() when the SUBACK arrives (the code);
+          DecideAtStart,  \* FALSE: subscribe_op looks at subscriptions_present() when the SUBACK arrives (the code);
                           \* TRUE: it decides when the subscribe is initiated (a plausible refactoring; breaks C13)
+          OnlyClear       \* FALSE: connect_op::on_connack stores the CONNACK's Session Present flag (the code);
+                          \* TRUE: it only ever clears it (seeded change r2-c13): the 0 left behind by a REFUSED attempt
+                          \* survives an accepted CONNACK with Session Present 1
 
 VARIABLES
     sp,        \* session_state::session_present()
@@ -35,12 +38,20 @@ Connack(b, who) ==
     /\ owed' = IF ~b /\ since THEN owed + 1 ELSE owed
     /\ since' = IF ~b THEN FALSE ELSE since
     \* on_connack: session_present(b); then update_session_state() of the reconnecting path
-    /\ LET rep == ~b /\ subs IN
+    /\ LET stored == IF OnlyClear THEN (IF ~b THEN FALSE ELSE sp) ELSE b
+           rep == ~stored /\ subs IN
        /\ reported' = IF rep THEN reported + 1 ELSE reported
-       /\ subs' = IF ~b THEN FALSE ELSE subs
+       /\ subs' = IF ~stored THEN FALSE ELSE subs
        /\ sp' = TRUE
     /\ pendR' = (who = "write") /\ pendW' = (who = "read")
     /\ UNCHANGED <<nsubs, inflight>>
+
+\* a connection attempt the broker refuses: its CONNACK carries Session Present 0, and on_connack stores the flag
+\* before it looks at the Reason Code; the attempt does not become the connection
+Refused ==
+    /\ ~up /\ conns < MaxConn
+    /\ sp' = FALSE /\ conns' = conns + 1
+    /\ UNCHANGED <<subs, up, pendR, pendW, reported, owed, since, nsubs, inflight>>
 
 \* the other path's (stale) try_again: update_session_state() again
 Update(path) ==
@@ -69,7 +80,7 @@ SubOk ==
 Fault == /\ up /\ up' = FALSE /\ pendR' = FALSE /\ pendW' = FALSE
          /\ UNCHANGED <<sp, subs, reported, owed, since, conns, nsubs, inflight>>
 
-Next == (\E b \in BOOLEAN, who \in {"read", "write"} : Connack(b, who)) \/ Update("read") \/ Update("write") \/ SubStart \/ SubOk \/ Fault
+Next == (\E b \in BOOLEAN, who \in {"read", "write"} : Connack(b, who)) \/ Refused \/ Update("read") \/ Update("write") \/ SubStart \/ SubOk \/ Fault
 Spec == Init /\ [][Next]_vars
 
 ExactlyTheOwedReports == reported = owed          \* C13_a / C13_b, at every instant
